@@ -17,7 +17,7 @@ PROP = "C06"
 LEVEL = "fault_enumeration"
 RULE = (
     "PG programs with provide/inject, hooks and tick points ({% vf_ticktag %}, {{ x|vf_tick }}) in templates, fill bodies, slot defaults and provide bodies; "
-    "for each program and mode: fault-free run counts N user-code invocations, then EVERY invocation index i in 1..N is made to raise (all i, not a sample) one of "
+    "for each program and mode: fault-free run counts N user-code invocations, then EVERY invocation index i in 1..N is made to raise (all i; in the quick tier programs with N > 60 get 60 indices: the first 30 and an even spread) one of "
     "7 exception shapes (string arg, multi-line message, non-string arg, no args, OSError(errno,msg), custom two-argument exception, TemplateSyntaxError). "
     "Oracle per faulted run: the exception that escapes IS the injected object and still carries its original message; all six per-render registries are empty; "
     "a sentinel object in the page context is unreachable after dropping the exception and gc.collect(); a follow-up fault-free render in the same process "
@@ -30,7 +30,7 @@ ASSUMPTIONS = [
     "gc object growth is a guarded secondary signal (threshold 3 objects/repetition over 25 repetitions after warm-up, must hold in two consecutive windows)",
     "Python slot functions passed to Component.render are exercised by a fixed family of hand-written programs, not by the generator",
 ]
-BOUNDS = {"quick": {"programs": 96, "sequences": 40}, "thorough": {"programs": 3000, "sequences": 800}}
+BOUNDS = {"quick": {"programs": 160, "sequences": 64}, "thorough": {"programs": 3000, "sequences": 800}}
 CFG = {"provide": True, "inject": True, "ticks": True, "hooks": True, "errors": False, "isfilled": False, "max_nodes": 3, "max_comps": 3, "provide_weight": 2, "inject_pct": 60}
 
 
@@ -112,7 +112,8 @@ def faulted_run(prog, mode, i, kind, baseline, keep_state=False):
     res.exc = None
     res.rec = None
     del res, got, exc, tk, sent
-    gc.collect()
+    if wr() is not None:
+        gc.collect()  # only cycles need the collector; it is expensive on a large heap
     if wr() is not None:
         fails.append(("[%s] after invocation #%d (%s) raised: object passed in the page context is still reachable (referrers: %s)" % (mode, i, label, _referrers(wr())), "c06-sentinel-alive"))
     # follow-up render
@@ -170,6 +171,15 @@ def check_program(case, col=None):
             continue
         n = tk0.n
         only = case.get("only_i")
+        cap = case.get("cap")
+        if cap and n > cap and not only:
+            # quick tier: programs with very many invocations get the first cap/2 indices and an even spread of the rest
+            head = list(range(1, cap // 2 + 1))
+            rest = list(range(cap // 2 + 1, n + 1))
+            step = max(1, len(rest) // (cap - len(head)))
+            only = set(head + rest[::step])
+            if col is not None:
+                col.count("programs_with_capped_fault_indices")
         for i in range(1, n + 1):
             if only and i not in only:
                 continue
@@ -183,7 +193,7 @@ def check_program(case, col=None):
             if len(fails) > 6:
                 break
         # repetition: registries / gc objects must not grow
-        if n and not only and not fails and case.get("exc_kind", 0) % 3 == 0:
+        if n and not case.get("only_i") and not fails and case.get("exc_kind", 0) % 3 == 0:
             fails.extend(_repeat(prog, mode, 1 + (case.get("exc_kind", 0) % n), baseline))
             if col is not None:
                 col.count("repetition_blocks")
@@ -353,8 +363,8 @@ def check_pyslots(case, col=None):
 def plan(tier, seed, scale=1.0):
     b = BOUNDS[tier]
     n = max(16, int(b["programs"] * scale))
-    shards = 16 if tier == "quick" else 48
-    specs = [{"kind": "main", "n": max(1, n // shards), "seed": derive_seed(seed, "c06", sh)} for sh in range(shards)]
+    shards = 32 if tier == "quick" else 96
+    specs = [{"kind": "main", "n": max(1, n // shards), "seed": derive_seed(seed, "c06", sh), "cap": 60 if tier == "quick" else None} for sh in range(shards)]
     ns = max(8, int(b["sequences"] * scale))
     for sh in range(8):
         specs.append({"kind": "seq", "n": max(1, ns // 8), "seed": derive_seed(seed, "c06s", sh)})
@@ -376,7 +386,7 @@ def run_shard(spec):
             col.fail(case, m, b)
         return col
     if spec["kind"] == "main":
-        strat = st.builds(lambda p, k: {"kind": "main", "program": p, "exc_kind": k}, pgstrat.programs(CFG), st.integers(0, 6))
+        strat = st.builds(lambda p, k: {"kind": "main", "program": p, "exc_kind": k, "cap": spec.get("cap")}, pgstrat.programs(CFG), st.integers(0, 6))
         return hyp_search(strat, lambda case: check_program(case, col), col, max_examples=spec["n"], seed=spec["seed"], shrink=False, attribute=attribute, post_min=_reduce)
     strat = st.builds(
         lambda ps, steps, m: {"kind": "seq", "programs": ps, "steps": [[pi % len(ps), fr] for pi, fr in steps], "mode": m},
